@@ -712,7 +712,10 @@ def applyUpdate (E : Env) : Nat → World → Store → Val → Except Err (Worl
       if !inner.isEmpty then
         match update with
         | .dict kvs =>
-          if kvs.any (fun kv => unsupportedKeys.contains kv.1) then .error .assertion
+          -- `_add/_move/_generate/_delete` with an empty list are empty loops; anything else is
+          -- outside this model
+          if kvs.any (fun kv => unsupportedKeys.contains kv.1 &&
+              (match kv.2 with | .list [] => false | _ => true)) then .error .assertion
           else
             let afterDivide : Except Err (World × Store) :=
               match KV.lookup "_divide" kvs with
@@ -721,7 +724,7 @@ def applyUpdate (E : Env) : Nat → World → Store → Val → Except Err (Worl
             match afterDivide with
             | .error e => .error e
             | .ok ws =>
-              (KV.erase "_divide" kvs).foldlM (fun (ws : World × Store) (kv : String × Val) =>
+              ((KV.erase "_divide" kvs).filter fun kv => !unsupportedKeys.contains kv.1).foldlM (fun (ws : World × Store) (kv : String × Val) =>
                 match ws.2 with
                 | .mk a' inner' =>
                   match AL.lookup kv.1 inner' with
@@ -730,7 +733,8 @@ def applyUpdate (E : Env) : Nat → World → Store → Val → Except Err (Worl
                     | .ok (w', c') => Except.ok (w', Store.mk a' (AL.set kv.1 c' inner'))
                     | .error e => .error e
                   | none => .ok ws) ws
-        | .list [] => .ok (w, .mk a inner)
+        | .list [] => .ok (w, .mk a inner)       -- `dict([])`
+        | .str s => if s.isEmpty then .ok (w, .mk a inner) else .error .valueError   -- `dict('ab')`
         | _ => .error .typeError
       else if a.proc.isSome then .error .assertion
       else
